@@ -273,12 +273,12 @@ def gen_mixed(rng, side=None):
     return {"kind": "m", "side": side, "calls": [c + [0] for c in calls]}
 
 
-def gen_identity(rng, side):
+def gen_identity(rng, side, pair=0):
     """two methods sharing their base name (names 0/1: /pkg.Ledger/Get vs /pkg.Profile/Get; 2/3: a user Watch next to a
     health-style Watch) resp. three HTTP routes (GET /a/get, POST /a/get, GET /b/get): one keeps failing, the others
     only succeed, interleaved and in phases -- failures under one name must never reject another"""
     http = side >= 3
-    names = rng.choice([[0, 1], [2, 3], [1, 0], [3, 2]]) if not http else rng.choice([[0, 1, 2], [1, 0, 2], [2, 0, 1]])
+    names = rng.choice([[[0, 1], [1, 0]], [[2, 3], [3, 2]]][pair]) if not http else [[0, 1, 2], [1, 0, 2]][side - 3]
     badn, good = names[0], names[1:]
     bad = (lambda: rng.choice([[4, 0], [5, 0], [0, 500], [0, 503]])) if http else \
           (lambda: rng.choice([[0, rng.choice([4, 13, 14, 15, 12])], [1, 0], [4, 0]]))
@@ -324,9 +324,9 @@ def mixed_cases(rng, tier):
         fixed.append({"kind": "m", "side": side, "calls": [[2, 0, 0]] * 120 + [[0, 0, 0]] * 10 + [[2, 0, 0]] * 20})
     for side in range(5):
         # breaker identity: full method names / routes (every run, both name pairs for RPC)
-        fixed.append(gen_identity(rng, side))
+        fixed.append(gen_identity(rng, side, 0))
         if side < 3:
-            fixed.append(gen_identity(rng, side))
+            fixed.append(gen_identity(rng, side, 1))
     for side in (3, 4):
         # the engine's own chain: a handler that panics on every request (every run, both timeout settings)
         fixed.append({"kind": "m", "side": side, "timeout": 0 if side == 3 else 3000,
